@@ -65,11 +65,29 @@ func vhShape() *vhIn {
 var vhAlphabet = []string{"a", "V1", "V2", "V3", "NE0", "NE1", "NE2", "NE3", "", "\u00fc\u221e", "n0", "n1"}
 
 // vhRename returns a copy of the input whose node ids are an injective, solver-chosen selection
-// from vhAlphabet.
+// from vhAlphabet (REN = 0), or one of three fixed renamings when the cube says so - concrete names
+// keep the whole run concrete where a symbolic name would make every comparison of two IDs a case
+// split: REN = 1 the same names in reverse order (reverses every lexicographic comparison),
+// REN = 2 helper-node names "V3","V2","V1","NE0",.. in descending order, REN = 3 the names rotated.
 func vhRename(in *vhIn) *vhIn {
 	out := &vhIn{}
 	*out = *in
 	out.ids = nil
+	if ren := vhConst("REN"); ren > 0 {
+		helper := []string{"V3", "V2", "V1", "NE3", "NE2", "NE1", "NE0", "A"}
+		for i := 0; i < in.n; i++ {
+			switch ren {
+			case 1:
+				out.ids = append(out.ids, vhID(in.n-1-i))
+			case 2:
+				out.ids = append(out.ids, helper[i%len(helper)])
+			default:
+				out.ids = append(out.ids, vhID((i+1)%in.n))
+			}
+		}
+		out.build()
+		return out
+	}
 	var pick []int
 	for i := 0; i < in.n; i++ {
 		k := vhInt("id", 0, len(vhAlphabet)-1)
